@@ -4,6 +4,7 @@ package main
 // concretisations, explicit choices), assertions and their solver queries.
 
 import (
+	"os"
 	"golang.org/x/tools/go/ssa"
 	"fmt"
 	"sort"
@@ -70,6 +71,8 @@ type harnessRun struct {
 	witnessChoices []int64
 	witnessObs   map[string]string
 	moreWitness  []witnessRec
+	crossSeen, crossChecked, crossUnknown int
+	crossDisagree []string
 	reach        map[string]int
 	obs          map[string]Value // observations on the current path
 	obsOrder     []string
@@ -478,6 +481,7 @@ func (in *Interp) assert(name string, c *Term) {
 	switch r {
 	case Unsat:
 		run.discharged++
+		in.crossCheck(name, BNot(c))
 	case Sat:
 		detail := "assertion " + name + " can fail"
 		if in.sched != nil {
@@ -510,6 +514,50 @@ func (in *Interp) assert(name string, c *Term) {
 	}
 	in.addPC(c)
 }
+
+// crossCheck re-decides a sample of the "unsat" verdicts of the primary solver
+// (the first non-trivial obligation of a job, then every 128th) with an
+// independent solver (cvc5). A "sat" answer there is a solver disagreement: the
+// check is broken, nothing it reports is to be believed.
+func (in *Interp) crossCheck(name string, negated *Term) {
+	run := in.run
+	if crossKind == "" {
+		return
+	}
+	run.crossSeen++
+	if run.crossSeen > 1 && run.crossSeen%128 != 0 {
+		return
+	}
+	if in.cross == nil {
+		s, err := NewSolver(crossKind, 2000)
+		if err != nil {
+			crossKind = ""
+			return
+		}
+		in.cross = s
+	}
+	in.cross.errors = nil
+	r, _ := in.cross.Check(in.pc, negated, false)
+	run.crossChecked++
+	switch {
+	case len(in.cross.errors) > 0 || r == Unknown:
+		run.crossUnknown++
+	case r == Sat:
+		run.crossDisagree = append(run.crossDisagree, name)
+	}
+}
+
+// crossKind: the secondary solver ("" = off); set from VERIF_CROSS (default cvc5).
+var crossKind = func() string {
+	switch v := os.Getenv("VERIF_CROSS"); v {
+	case "off", "0":
+		return ""
+	case "":
+		return "cvc5"
+	default:
+		return v
+	}
+}()
 
 // ---------------------------------------------------------------------------
 
